@@ -122,7 +122,10 @@ Inductive ctl :=
 
 Inductive action :=
   | ATag (t : bytes) | AMsg (m : bytes) | AStatus (n : N)
-  | ADisr (d : disr) | ACtl (c : ctl) | ASkipAfter (m : bytes) | ANop.
+  | ADisr (d : disr) | ACtl (c : ctl) | ASkipAfter (m : bytes) | ANop | ASkip (n : N).
+
+(* flow actions: skipAfter:marker writes tx.SkipAfter, skip:N writes tx.Skip *)
+Inductive flow := FAfter (m : bytes) | FSkip (n : N).
 
 Definition is_disr (a : action) : bool := match a with ADisr _ => true | _ => false end.
 Definition is_block (a : action) : bool := match a with ADisr DBlock => true | _ => false end.
@@ -133,7 +136,7 @@ Record clink := mkClink {
   cl_vars : list cvar; cl_op : option op;
   cl_nd : list ctl;          (* non-disruptive actions with an effect here: ctl, in order *)
   cl_disr : list disr;       (* disruptive actions, in order *)
-  cl_flow : list bytes;      (* skipAfter markers, in order *)
+  cl_flow : list flow;       (* skipAfter / skip actions, in order *)
   cl_tags : list bytes; cl_msg : option bytes; cl_status : N }.
 
 Record crule := mkCrule {
@@ -159,7 +162,8 @@ Definition act_step (l : clink) (a : action) : clink :=
   | AStatus n => mkClink (cl_vars l) (cl_op l) (cl_nd l) (cl_disr l) (cl_flow l) (cl_tags l) (cl_msg l) n
   | ADisr d => mkClink (cl_vars l) (cl_op l) (cl_nd l) (cl_disr l ++ [d]) (cl_flow l) (cl_tags l) (cl_msg l) (cl_status l)
   | ACtl c => mkClink (cl_vars l) (cl_op l) (cl_nd l ++ [c]) (cl_disr l) (cl_flow l) (cl_tags l) (cl_msg l) (cl_status l)
-  | ASkipAfter m => mkClink (cl_vars l) (cl_op l) (cl_nd l) (cl_disr l) (cl_flow l ++ [m]) (cl_tags l) (cl_msg l) (cl_status l)
+  | ASkipAfter m => mkClink (cl_vars l) (cl_op l) (cl_nd l) (cl_disr l) (cl_flow l ++ [FAfter m]) (cl_tags l) (cl_msg l) (cl_status l)
+  | ASkip n => mkClink (cl_vars l) (cl_op l) (cl_nd l) (cl_disr l) (cl_flow l ++ [FSkip n]) (cl_tags l) (cl_msg l) (cl_status l)
   | _ => l
   end.
 
@@ -404,9 +408,10 @@ Record texc := mkTexc { te_id : N; te_var : var; te_exc : exc }.
 
 Record txst := mkSt {
   st_rm : list N; st_rng : list (N * N); st_texc : list texc;   (* per-transaction exclusions *)
-  st_skip : bytes; st_intr : option intr; st_matched : list (N * list md) }.
+  st_skip : bytes; st_intr : option intr; st_matched : list (N * list md);
+  st_skipn : N }.                                               (* tx.Skip *)
 
-Definition st_init : txst := mkSt [] [] [] [] None [].
+Definition st_init : txst := mkSt [] [] [] [] None [] 0.
 
 Definition bytes_nil (s : bytes) : bool := match s with [] => true | _ => false end.
 
@@ -471,11 +476,11 @@ Definition is_removed (st : txst) (id : N) : bool :=
 Definition texc_for (st : txst) (id : N) : list texc := filter (fun t => te_id t =? id) (st_texc st).
 
 Definition st_add_rm (ids : list N) (st : txst) : txst :=
-  mkSt (st_rm st ++ ids) (st_rng st) (st_texc st) (st_skip st) (st_intr st) (st_matched st).
+  mkSt (st_rm st ++ ids) (st_rng st) (st_texc st) (st_skip st) (st_intr st) (st_matched st) (st_skipn st).
 Definition st_add_rng (a b : N) (st : txst) : txst :=
-  mkSt (st_rm st) (st_rng st ++ [(a, b)]) (st_texc st) (st_skip st) (st_intr st) (st_matched st).
+  mkSt (st_rm st) (st_rng st ++ [(a, b)]) (st_texc st) (st_skip st) (st_intr st) (st_matched st) (st_skipn st).
 Definition st_add_texc (l : list texc) (st : txst) : txst :=
-  mkSt (st_rm st) (st_rng st) (st_texc st ++ l) (st_skip st) (st_intr st) (st_matched st).
+  mkSt (st_rm st) (st_rng st) (st_texc st ++ l) (st_skip st) (st_intr st) (st_matched st) (st_skipn st).
 
 (* parseCtl: a string key is lower-cased; a regex key is compiled as written, the string key is then "" *)
 Definition ctl_exc (k : key) : exc :=
@@ -515,14 +520,23 @@ Definition run_nd (rules : list crule) (cs : list ctl) (st : txst) : txst :=
 Definition st_interrupt (i : intr) (st : txst) : txst :=
   match st_intr st with
   | Some _ => st
-  | None => mkSt (st_rm st) (st_rng st) (st_texc st) (st_skip st) (Some i) (st_matched st)
+  | None => mkSt (st_rm st) (st_rng st) (st_texc st) (st_skip st) (Some i) (st_matched st) (st_skipn st)
   end.
 
 Definition st_set_skip (m : bytes) (st : txst) : txst :=
-  mkSt (st_rm st) (st_rng st) (st_texc st) m (st_intr st) (st_matched st).
+  mkSt (st_rm st) (st_rng st) (st_texc st) m (st_intr st) (st_matched st) (st_skipn st).
+
+Definition st_set_skipn (n : N) (st : txst) : txst :=
+  mkSt (st_rm st) (st_rng st) (st_texc st) (st_skip st) (st_intr st) (st_matched st) n.
+
+Definition exec_flow (f : flow) (st : txst) : txst :=
+  match f with FAfter m => st_set_skip m st | FSkip n => st_set_skipn n st end.
+
+(* end of a phase: tx.Skip = 0; tx.SkipAfter = "" *)
+Definition st_end_phase (st : txst) : txst := st_set_skipn 0 (st_set_skip [] st).
 
 Definition st_add_match (id : N) (m : list md) (st : txst) : txst :=
-  mkSt (st_rm st) (st_rng st) (st_texc st) (st_skip st) (st_intr st) (st_matched st ++ [(id, m)]).
+  mkSt (st_rm st) (st_rng st) (st_texc st) (st_skip st) (st_intr st) (st_matched st ++ [(id, m)]) (st_skipn st).
 
 (* deny: status defaults to 403; drop: the status as it is; pass and (un-merged) block: nothing *)
 Definition exec_disr (id status : N) (d : disr) (st : txst) : txst :=
@@ -555,17 +569,21 @@ Definition eval_rule (rules : list crule) (r : crule) (rq : request) (st : txst)
     | (st1, None) => st1
     | (st1, Some ms) =>
       let st2 := fold_left (fun s d => exec_disr (cr_id r) (cl_status h) d s) (cl_disr h) st1 in
-      let st3 := fold_left (fun s m => st_set_skip m s) (cl_flow h) st2 in
+      let st3 := fold_left (fun s f => exec_flow f s) (cl_flow h) st2 in
       if cr_id r =? 0 then st3 else st_add_match (cr_id r) ms st3
     end
   end.
 
-(* one iteration of RuleGroup.Eval's loop body (after the interruption check) *)
+(* one iteration of RuleGroup.Eval's loop body (after the interruption check), in the coded order:
+   phase filter, per-transaction removal (a removed rule neither resolves a pending marker nor counts
+   for skip:N), pending SkipAfter, pending Skip counter (every remaining rule or marker of the phase
+   counts), evaluation *)
 Definition eval_step (rules : list crule) (ph : N) (rq : request) (st : txst) (r : crule) : txst :=
   if negb (cr_phase r =? 0) && negb (cr_phase r =? ph) then st
   else if is_removed st (cr_id r) then st
   else if negb (bytes_nil (st_skip st)) then
          (if bytes_eqb (cr_mark r) (st_skip st) then st_set_skip [] st else st)
+  else if 0 <? st_skipn st then st_set_skipn (st_skipn st - 1) st
   else eval_rule rules r rq st.
 
 Fixpoint eval_list (rules : list crule) (rs : list crule) (ph : N) (rq : request) (st : txst) : txst :=
@@ -578,9 +596,8 @@ Fixpoint eval_list (rules : list crule) (rs : list crule) (ph : N) (rq : request
     end
   end.
 
-(* end of a phase: tx.Skip = 0; tx.SkipAfter = "" *)
 Definition eval_phase (rules : list crule) (ph : N) (rq : request) (st : txst) : txst :=
-  st_set_skip [] (eval_list rules rules ph rq st).
+  st_end_phase (eval_list rules rules ph rq st).
 
 (* ProcessRequestHeaders; ProcessRequestBody (not evaluated once interrupted) *)
 Definition cf_run (rules : list crule) (rq : request) : txst :=
@@ -594,7 +611,7 @@ Definition cf_run (rules : list crule) (rq : request) : txst :=
    then the later phases [phs] over the whole rule list (none of them once interrupted) *)
 Definition cf_rest (rules rs : list crule) (ph : N) (phs : list N) (rq : request) (st : txst) : txst :=
   fold_left (fun s p => match st_intr s with Some _ => s | None => eval_phase rules p rq s end)
-            phs (st_set_skip [] (eval_list rules rs ph rq st)).
+            phs (st_end_phase (eval_list rules rs ph rq st)).
 
 Definition cf_outcome (rules : list crule) (rq : request) : list (N * list md) * option intr :=
   let s := cf_run rules rq in (st_matched s, st_intr s).
